@@ -1231,6 +1231,8 @@ ecdsa_sign(ec_curve_p curve, bn_p hash, bn_p priv_key, bn_p rnd,
 	BN_RET_ON_ERR(bn_assign(sign_s, rnd));
 	BN_RET_ON_ERR(bn_mod_reduce(sign_s, &curve->n,
 	    &curve->n_mod_rd_data));
+	if (0 != bn_is_zero(sign_s)) /* k must be in [1, n-1] */
+		return (-1);
 	/* R = rnd*G */
 	/* Slow operation. */
 	BN_RET_ON_ERR(ec_point_mult_bp(sign_s, curve, &R));
